@@ -520,6 +520,7 @@ pub fn plan(tier: &str) -> Vec<SubRun> {
         }
         v.push(SubRun { cfg: c(2, false), prefix: shared.clone(), alphabet: ops::alphabet("crash"), depth: 2, nest: 1, label: "shared-prefix nested" });
         v.push(SubRun { cfg: c(3, false), prefix: three.clone(), alphabet: ops::alphabet("crash"), depth: 2, nest: 0, label: "three-keys" });
+        v.push(SubRun { cfg: c(3, false), prefix: shared.clone(), alphabet: ops::alphabet("crash"), depth: 2, nest: 0, label: "restart in mid-segment" });
         v.push(SubRun { cfg: c(2, true), prefix: vec![], alphabet: ops::alphabet("crash"), depth: 2, nest: 1, label: "async nested" });
         v.push(SubRun { cfg: c(2, false), prefix: vec![], alphabet: big_alphabet(), depth: 2, nest: 1, label: "big records/blobs nested" });
         v.push(SubRun { cfg: c(10_000, false), prefix: vec![], alphabet: big_alphabet(), depth: 2, nest: 0, label: "big records/blobs" });
@@ -530,6 +531,7 @@ pub fn plan(tier: &str) -> Vec<SubRun> {
             v.push(SubRun { cfg: c(n, true), prefix: vec![], alphabet: ops::alphabet("crash"), depth: 3, nest: 1, label: "async d3 nested" });
             v.push(SubRun { cfg: c(n, false), prefix: shared.clone(), alphabet: ops::alphabet("crash"), depth: 3, nest: 1, label: "shared-prefix nested" });
             v.push(SubRun { cfg: c(n, false), prefix: three.clone(), alphabet: ops::alphabet("crash"), depth: 3, nest: 0, label: "three-keys" });
+            v.push(SubRun { cfg: c(n + 1, false), prefix: shared.clone(), alphabet: ops::alphabet("crash"), depth: 3, nest: 0, label: "restart in mid-segment" });
             v.push(SubRun { cfg: c(n, false), prefix: vec![], alphabet: big_alphabet(), depth: 3, nest: 1, label: "big records/blobs nested" });
         }
         v.push(SubRun { cfg: c(2, false), prefix: shared, alphabet: ops::alphabet("crash"), depth: 2, nest: 2, label: "nesting depth 3" });
